@@ -745,7 +745,7 @@ def spawn_children_start(ctx, jobs, hashseeds):
     return procs
 
 
-def spawn_children_collect(procs, timeout=1500):
+def spawn_children_collect(procs, timeout=5400):
     results = {}
     for hs, p, out, log in procs:
         try:
